@@ -193,14 +193,16 @@ Proof.
     constructor; [exact Hf|rewrite Hs2; cbn; exact (ni_win _ Hi1)|rewrite Hc; exact (ni_cn _ Hi1)|rewrite Hs2; cbn; exact (ni_pay _ Hi1)|rewrite Hs2; cbn; exact (ni_lp _ Hi1)].
 Qed.
 
-Theorem PreN_confirm_nft e b sd w l w' r :
+Theorem PreN_confirm_nft v e b sd w l w' r :
   Pre w l -> NInv w -> pay_wf (pay e) -> caller e <> sc_addr ->
-  exec H Nft e b sd w CConfirmNft = Ok (w', r) -> Pre w' l /\ NInv w'.
+  exec H v e b sd w CConfirmNft = Ok (w', r) ->
+  Pre w' l /\ NInv w' /\ gt_users (st w') = gt_users (st w).
 Proof.
   intros Hp Hi Hwf Hcs E.
-  destruct (FeeInv_confirm_nft H Nft e b sd w w' r Hwf Hcs (ni_fee _ Hi) E) as (Hf & Hpay & Hcn).
+  destruct (FeeInv_confirm_nft H v e b sd w w' r Hwf Hcs (ni_fee _ Hi) E) as (Hf & Hpay & Hcn).
   unfold exec in E. cbn [payable bind] in E.
-  apply bind_ok in E. destruct E as (w1 & Hcr & E). cbn [dispatch has_nft] in E. unfold ret0 in E. mon_inv.
+  apply bind_ok in E. destruct E as (w1 & Hcr & E). cbn [dispatch] in E.
+  destruct (has_nft v); [|discriminate]. unfold ret0 in E. mon_inv.
   match goal with Hd : confirm_nft _ _ = Ok _ |- _ => apply confirm_nft_spec in Hd;
     destruct Hd as (_ & _ & _ & Hm & Hpp & Hs & Hb & _) end.
   destruct (credit_parsed (pay e) Hwf _ _ _ _ _ _ Hcs Hpp Hcr) as [Hs1 Hb1]. cbn in Hs1.
@@ -213,12 +215,14 @@ Proof.
   - eapply Pre_neutral_gen; [| |exact Hp].
     + rewrite Hs, Hs1. unfold neutral. cbn. repeat split.
     + rewrite Hb. exact Hbp.
-  - constructor; [exact Hf|rewrite Hs, Hs1; cbn; exact (ni_win _ Hi)|rewrite Hcn; exact (ni_cn _ Hi)
+  - split; [|rewrite Hs, Hs1; reflexivity].
+    constructor; [exact Hf|rewrite Hs, Hs1; cbn; exact (ni_win _ Hi)|rewrite Hcn; exact (ni_cn _ Hi)
                  |rewrite Hs, Hs1; cbn; exact (ni_pay _ Hi)|rewrite Hs, Hs1; cbn; exact (ni_lp _ Hi)].
 Qed.
 
 Theorem PreN_sft_setup v e b sd w l w' r :
-  Pre w l -> NInv w -> exec H v e b sd w CSftSetup = Ok (w', r) -> Pre w' l /\ NInv w'.
+  Pre w l -> NInv w -> exec H v e b sd w CSftSetup = Ok (w', r) ->
+  Pre w' l /\ NInv w' /\ gt_users (st w') = gt_users (st w).
 Proof.
   intros Hp Hi E.
   set (w0 := w <| evs := [] |> <| rlog := [] |> <| locks := [] |> <| seeds := sd |>).
@@ -233,7 +237,7 @@ Proof.
   - eapply Pre_neutral_gen; [| |exact Hp0]; cbn.
     + unfold neutral. cbn. repeat split.
     + apply Hb. right. reflexivity.
-  - eapply NInv_frame; [exact Hi0|reflexivity|]. cbn. apply Hb. left. exact (fi_sft _ (ni_fee _ Hi0)).
+  - split; [|reflexivity]. eapply NInv_frame; [exact Hi0|reflexivity|]. cbn. apply Hb. left. exact (fi_sft _ (ni_fee _ Hi0)).
 Qed.
 End HSetupNft.
 
@@ -294,8 +298,8 @@ Proof.
       destruct (Pre_exec H e b sd w l c w' r Hp Hc Hwf Hcs E) as [l' Hp'].
       exists l'. split; [exact Hp'|]. eapply NInv_exec_base; eauto.
     + exists l. eapply PreN_blacklist; eauto.
-  - destruct IH as (l & Hp & Hi). exists l. eapply PreN_confirm_nft; eauto.
-  - destruct IH as (l & Hp & Hi). exists l. eapply PreN_sft_setup; eauto.
+  - destruct IH as (l & Hp & Hi). exists l. destruct (PreN_confirm_nft H Nft e b sd w l w' r Hp Hi Hwf Hcs E) as (A & B & _). auto.
+  - destruct IH as (l & Hp & Hi). exists l. destruct (PreN_sft_setup H Nft e b sd w l w' r Hp Hi E) as (A & B & _). auto.
 Qed.
 
 (** from deployment through the three stages of launchpad-with-nft *)
